@@ -201,8 +201,8 @@ class Flt(Engine):
             if o.startswith('!'):
                 return 'crash or sanitizer abort %s: %s' % (tag, o)
             f = dict(x.split('=', 1) for x in o.split(' ') if '=' in x)
-            if w[0] == 'rt' and w[-1] == 'allx':
-                continue
+            if w[-1] == 'allx' or (w[-1] == 'all' and f.get('psig') == '1'):
+                continue      # documented exception: the payload itself is claimed by a read bidder
             wk = ('w',) if w[0] == 'rt' else ('wa', 'wb')
             for k in wk:
                 if f.get(k) != 'ok':
@@ -227,7 +227,7 @@ class Flt(Engine):
 
     def stats(self, cases, impl):
         st = {'filters': {}, 'depth': {}, 'payload_sizes': {'0': 0, '1': 0, '<=64': 0, '<=4096': 0, '<=65536': 0, '<=1MiB': 0, '>1MiB': 0},
-              'modes': {}, 'read_blocks': {}, 'kinds': {}, 'options_used': {}, 'eq1': 0, 'not_recognised': 0, 'empty_decoded': 0}
+              'modes': {}, 'payload_claimed_by_a_bidder': 0, 'read_blocks': {}, 'kinds': {}, 'options_used': {}, 'eq1': 0, 'not_recognised': 0, 'empty_decoded': 0}
         for c, im in zip(cases, impl):
             for op, o in zip(c.ops, im):
                 w = op.split()
@@ -246,6 +246,7 @@ class Flt(Engine):
                     b = '0' if n == 0 else '1' if n == 1 else '<=64' if n <= 64 else '<=4096' if n <= 4096 else '<=65536' if n <= 65536 else '<=1MiB' if n <= 1 << 20 else '>1MiB'
                     st['payload_sizes'][b] += 1
                 st['eq1'] += ' eq=1' in o
+                st['payload_claimed_by_a_bidder'] += ' psig=1' in o
                 st['not_recognised'] += ' rcodes=0 ' in o
                 st['empty_decoded'] += ' dec=0:' in o
         return st
